@@ -31,7 +31,16 @@ def check_bin(ctx, binImgs, rng):
         a = b = 1
     shape = lead + (a * n, b * n)
     data = rng.integers(0, 100, shape).astype(dt)
-    wit = {"shape": shape, "n": n, "dtype": str(np.dtype(dt))}
+    lay = str(rng.choice(["C", "C", "F", "transposed_view", "strided_view"]))
+    if lay == "F":
+        data = np.asfortranarray(data)
+    elif lay == "transposed_view":
+        data = np.ascontiguousarray(np.swapaxes(data, -1, -2)).swapaxes(-1, -2)      # same values, last two axes stored transposed
+    elif lay == "strided_view":
+        big = np.zeros(lead + (2 * a * n, 3 * b * n), dtype=dt)
+        big[..., ::2, 1::3] = data
+        data = big[..., ::2, 1::3]
+    wit = {"shape": shape, "n": n, "dtype": str(np.dtype(dt)), "memory_layout": lay}
     ctx.case("binImgs", key=(shape, n, str(dt)), nontrivial=data.size > 1, sample=wit)
     got = pure_call(ctx, "binImgs", binImgs, data, n)
     want = data.reshape(lead + (a, n, b, n)).sum(axis=(-3, -1))
